@@ -121,11 +121,13 @@ CLAIMS = {
              "queue, results queue), for EVERY worker count >= 1, queue bound, history of calls and schedule: each completed call returned "
              "exactly its input in order (through the reorder buffer resp. the final sort by index - sorting a permutation of 0..n-1 gives the "
              "input order); repeated calls are matched call by call; deadlock freedom and a strictly decreasing measure, hence termination "
-             "with all workers stopped and joined under every scheduler. A non-blocking get may spuriously report Empty (enabled in every state "
-             "of the drain loop). Tied to /repo by trace acceptance under the controlled scheduler (also with spurious Empty and a bounded "
-             "results pipe on the implementation side).",
-             note=("Modelled, not verified: multiprocessing.Queue as an atomic FIFO (the bounded pipe behind it is exercised by the harness only, the model "
-                   "has no pipe); processes as threads; Process.start/join and the two module-level queue names are rebound inside the sandboxed child "
+             "with all workers stopped, exited and joined under every scheduler. A non-blocking get may spuriously report Empty (enabled in every state "
+             "of the drain loop). The exit of a worker process is an event of its own, enabled only while at most m_pipe results wait in the "
+             "results queue (the bounded pipe behind multiprocessing.Queue; every theorem holds for every bound, and C05_joins_after_collecting "
+             "shows why: when processes are joined the results queue is empty). Tied to /repo by trace acceptance under the controlled "
+             "scheduler (with spurious Empty and the same pipe bound on the exit point of each logical process).",
+             note=("Modelled, not verified: multiprocessing.Queue as an atomic FIFO whose bounded pipe is one shared bound on the number of unread results "
+                   "(not one buffer per process); processes as threads; Process.start/join and the two module-level queue names are rebound inside the sandboxed child "
                    "(harness/props/c05.py), the pool code itself is unmodified. The mapped function is uninterpreted and returns normally. "),
              tech="Coq proof: conservation invariant + stop-order accounting invariant over an LTS, sorted-permutation uniqueness, potential function; trace-acceptance correspondence under a controlled scheduler",
              ref="DESIGN.md §4 C05"),
